@@ -61,13 +61,13 @@ typedef struct {
 	int ended;            /* '=' seen */
 	int must_reject;
 	int may_reject;
-	size_t wbit;          /* witness bit position chosen up front */
-	unsigned wval;        /* value of the witness bit once the symbol covering it has arrived */
+	unsigned wval;        /* value of the witness bit (position wbit, chosen up front and passed to every step) once the
+	                         symbol covering it has arrived */
 } spec_b32_dec;
 
-static void spec_b32_dec_init(spec_b32_dec *s, size_t wbit) { s->bits = 0; s->ended = 0; s->must_reject = 0; s->may_reject = 0; s->wbit = wbit; s->wval = 0; }
+static void spec_b32_dec_init(spec_b32_dec *s) { s->bits = 0; s->ended = 0; s->must_reject = 0; s->may_reject = 0; s->wval = 0; }
 
-static void spec_b32_dec_step(spec_b32_dec *s, int ch) {
+static void spec_b32_dec_step(spec_b32_dec *s, int ch, size_t wbit) {
 	int v;
 	if (s->ended || s->must_reject) return;
 	if (ch == '=') { s->ended = 1; return; }
@@ -78,7 +78,7 @@ static void spec_b32_dec_step(spec_b32_dec *s, int ch) {
 		if (!(ch >= '0' && ch <= '9')) s->must_reject = 1;
 		return;
 	}
-	if (s->wbit >= s->bits && s->wbit < s->bits + 5) s->wval = spec_b32_symbit((unsigned)v, (unsigned)(s->wbit - s->bits));
+	if (wbit >= s->bits && wbit < s->bits + 5) s->wval = spec_b32_symbit((unsigned)v, (unsigned)(wbit - s->bits));
 	s->bits += 5;
 }
 
